@@ -72,6 +72,9 @@ ROOT = Path(__file__).parent
 def V(i):
     return PythonNode(value=i, hash=True)
 
+def W(i):
+    return PythonNode(value=i)          # not hashed
+
 def show(x):
     if isinstance(x, dict):
         return ["dict", [[k, show(v)] for k, v in sorted(x.items())]]
@@ -81,7 +84,9 @@ def show(x):
         return ["tuple", [show(v) for v in x]]
     if isinstance(x, Path):
         return ["P", x.name]
-    return ["L", 0 if x is None else x]
+    if x is None or isinstance(x, int):
+        return ["L", 0 if x is None else x]
+    return ["OBJ", type(x).__name__]
 
 {decos}
 def task_kw({params}, out: Annotated[Path, Product] = ROOT / "kw.json"):
@@ -132,7 +137,7 @@ def kw_case(c, d):
         shutil.rmtree(proj)
     proj.mkdir()
     params, shown, decos = [], [], []
-    order = {"kwargs": 0, "python": 1, "path_default": 2}
+    order = {"kwargs": 0, "python": 1, "python_nohash": 1, "path_default": 2, "mixed_default": 2}
     for name, form, t in sorted(c["args"], key=lambda a: order[a[1]]):
         if form == "python":          # Annotated PythonNode values in nested containers
             params.append(f"{name}: Annotated[Any, {src(t, lambda i: f'V({i})')}]")
@@ -140,6 +145,10 @@ def kw_case(c, d):
             for i in leaves_of(t):
                 (proj / f"in{i}.txt").write_text(str(i))
             params.append(f"{name}: Any = {src(t, lambda i: 'ROOT / ' + repr(f'in{i}.txt'))}")
+        elif form == "python_nohash":  # hash-less PythonNodes in nested containers
+            params.append(f"{name}: Annotated[Any, {src(t, lambda i: f'W({i})')}]")
+        elif form == "mixed_default":  # a default mixing plain values and PythonNodes
+            params.append(f"{name}: Any = {src(t, lambda i: f'W({i})' if i % 2 else str(i))}")
         elif form == "kwargs":        # @task(kwargs={name: value})
             decos.append(f"@task(kwargs={{{name!r}: {src(t, lambda i: f'V({i})')}}})")
             params.append(f"{name}")
@@ -149,6 +158,36 @@ def kw_case(c, d):
     f = proj / "kw.json"
     r["kwargs"] = json.loads(f.read_text()) if f.exists() else None
     return r
+
+
+SHARED = '''
+from pathlib import Path
+from typing import Annotated
+import json
+from pytask import Product, task
+ROOT = Path(__file__).parent
+common = {{"shared": {base}}}
+{tasks}
+'''
+
+
+def shared_case(c, d):
+    proj = d / "s"
+    if proj.exists():
+        shutil.rmtree(proj)
+    proj.mkdir()
+    tasks, want = [], {}
+    for i in range(c["n"]):
+        tasks.append(f"@task(kwargs=common, id='t{i}')\ndef work(shared, i={i * 7 + 1}, tags=({i},), out: Annotated[Path, Product] = ROOT / 'w{i}.json'):\n"
+                     f"    out.write_text(json.dumps([shared, i, list(tags)]))\n")
+        want[str(i)] = [c["base"], i * 7 + 1, [i]]
+    (proj / "task_s.py").write_text(SHARED.format(base=c["base"], tasks="\n".join(tasks)))
+    r = run_build(proj)
+    got = {}
+    for i in range(c["n"]):
+        f = proj / f"w{i}.json"
+        got[str(i)] = json.loads(f.read_text()) if f.exists() else None
+    return {"case": c, "exit": r.get("exit"), "got": got, "want": want}
 
 
 def leaves_of(t):
@@ -170,6 +209,8 @@ def main():
             res["programs"] = [program_case(c, d) for c in req["programs"]]
         if "kwprograms" in req:
             res["kwprograms"] = [kw_case(c, d) for c in req["kwprograms"]]
+        if "shared_kwargs" in req:
+            res["shared_kwargs"] = [shared_case(c, d) for c in req["shared_kwargs"]]
     finally:
         shutil.rmtree(d, ignore_errors=True)
     json.dump(res, sys.stdout)
